@@ -27,8 +27,8 @@ RULE = ('random histories (1..12 ops) of element / row-view / row / row-slice / 
 ASSUMPTIONS = [
     'numpy assignment/casting/broadcasting semantics on 1-d rows are the reference for the list-of-rows oracle',
     'Lean elements are exact rationals: generated values are small ints / dyadic floats so that float arithmetic is exact',
-    'the staged ra.py is held to the fully repaired variant of the Lean model (Cfg.current = all four repairs); '
-    'four behavioural probes must detect every repair, a probe that does not is reported as a violation',
+    'the staged ra.py is held to the fully repaired variant of the Lean model (Cfg.current = all five repairs); '
+    'five behavioural probes must detect every repair, a probe that does not is reported as a violation',
     'copy=False construction is documented aliasing and is excluded',
 ]
 TRUSTED_EXTRA = ['Python list-of-rows oracle in harness/props/c06.py (Spec class); compared with Lean specStep on every step']
@@ -42,7 +42,8 @@ MIRRORS = [('enspara/ra/ra.py', [
     'RaggedArray.__len__', 'RaggedArray.all', 'RaggedArray.any', 'RaggedArray.max', 'RaggedArray.min',
     'RaggedArray.flatten', 'RaggedArray.size', 'RaggedArray.shape', 'RaggedArray.dtype'])]
 
-DT = {'int': np.int64, 'float': np.float64, 'bool': np.bool_}
+DT = {'int': np.int64, 'float': np.float64, 'bool': np.bool_, 'int8': np.int8, 'int16': np.int16,
+      'int32': np.int32, 'float32': np.float32}
 KIND = {'i': 'int', 'f': 'float', 'b': 'bool', 'u': 'int'}
 
 
@@ -64,12 +65,22 @@ class Spec:
 
     def norm(self):
         if self.rows:
-            dt = np.result_type(*[r.dtype for r in self.rows])
-            self.rows = [np.asarray(r).astype(dt) for r in self.rows]
+            dts = set(r.dtype for r in self.rows)
+            if len(dts) > 1:
+                dt = np.result_type(*dts)
+                self.rows = [np.asarray(r).astype(dt) for r in self.rows]
 
     @property
     def kind(self):
         return KIND.get(self.rows[0].dtype.kind, 'other')
+
+    @property
+    def dtname(self):
+        """name in DT of the rows' dtype (for rebuilding the real object from the oracle's rows)"""
+        for k_, v_ in DT.items():
+            if np.dtype(v_) == self.rows[0].dtype:
+                return k_
+        return self.kind
 
     def copy(self):
         s = Spec.__new__(Spec)
@@ -106,7 +117,7 @@ class Spec:
 
     @staticmethod
     def _flat_vals(v, n):
-        if not isinstance(v, (list, tuple, np.ndarray)):
+        if not isinstance(v, (list, tuple, np.ndarray)) or (isinstance(v, np.ndarray) and v.ndim == 0):
             return [v] * n
         flat = []
         for x in v:
@@ -234,6 +245,65 @@ IOPS = {'add': operator.iadd, 'sub': operator.isub, 'mul': operator.imul,
         'or': operator.ior, 'and': operator.iand, 'xor': operator.ixor}
 
 
+# ================================================================== value / index containers
+def _wrap_scalar(x, how):
+    if how is None:
+        return x
+    if how == '0d':
+        return np.array(x)
+    wide = how == 'np64'
+    if isinstance(x, bool):
+        return np.bool_(x)
+    if isinstance(x, int):
+        return (np.int64 if wide else np.int32)(x)
+    return (np.float64 if wide else np.float32)(x)
+
+
+def _wrap_int(i, how):
+    if how == 'np32':
+        return np.int32(i)
+    if how == 'np64':
+        return np.int64(i)
+    return i
+
+
+def mat(op):
+    """the op with its values in the containers / dtypes it asks for ('vw': wrapper of scalar
+    values, 'vdt': dtype of array values); the same objects go to the oracle and to the real code"""
+    vw, vdt = op.get('vw'), op.get('vdt')
+    k = op['k']
+    rowsv = [key for key in ('v', 'o') if isinstance(op.get(key), list) and op[key]
+             and all(isinstance(r, list) for r in op[key])
+             and (key == 'o' or op.get('form') in ('ra', 'listarr'))]
+    if vw is None and vdt is None and not any(len(r) == 0 for key in rowsv for r in op[key]):
+        return op
+    o = dict(op)
+    if vdt is None:
+        # an empty row of a row-structured value has the dtype of the other rows (not numpy's float64 default)
+        for key in rowsv:
+            full = [np.array(r) for r in op[key] if len(r)]
+            if full:
+                dt0 = np.result_type(*[x.dtype for x in full])
+                o[key] = [np.array(r, dtype=dt0) for r in op[key]]
+    if vw is not None:
+        if 'c_' in o:
+            o['c_'] = _wrap_scalar(o['c_'], vw)
+        if k in ('setElem', 'viewWrite') or o.get('vt') == 'scalar':
+            # (a 0-d ARRAY is not a scalar for an assignment: numpy broadcasts it, RaggedArray treats it
+            #  as a sized iterable; outside the property's "scalar" - only numpy scalars are generated)
+            o['v'] = _wrap_scalar(o['v'], 'np64' if vw == '0d' else vw)
+    if vdt is not None:
+        dt = DT[vdt]
+        if o.get('vt') == 'flat' or k == 'appendFlat' or (k == 'setRow' and o.get('arr')):
+            if k != 'appendFlat':
+                o['v'] = np.array(o['v'], dtype=dt)
+        elif (o.get('vt') == 'nested' or k in ('setRows', 'append')) and o.get('form') in ('ra', 'listarr', 'arr2d'):
+            o['v'] = [np.array(r, dtype=dt) for r in o['v']]
+        if k in ('iop2', 'binop2'):
+            o['o'] = [np.array(r, dtype=dt) for r in o['o']]
+    return o
+
+
 # ================================================================== canonical values
 def unbox(x):
     if isinstance(x, np.ndarray) and x.size == 1:
@@ -267,6 +337,15 @@ def crow(r):
 
 def crows(rows):
     return [crow(r) for r in rows]
+
+
+def crow_l(r):
+    """light canonical row (big integer arrays): Python scalars via tolist()"""
+    return r.tolist() if isinstance(r, np.ndarray) else [x.item() if isinstance(x, np.generic) else x for x in r]
+
+
+def crows_l(rows):
+    return [crow_l(r) for r in rows]
 
 
 def q(x):
@@ -306,11 +385,19 @@ def build_real(rows, dtype, ctor, keep=None):
     elif ctor == 'lists':
         src = [np.array(r, dtype=dt).tolist() for r in rows]
         a = ra.RaggedArray(src)
-    elif ctor in ('flat', 'flat-np'):
+    elif ctor == 'nested-nocheck':
+        src = [np.array(r, dtype=dt) for r in rows]
+        a = ra.RaggedArray(array=src, error_checking=False, copy=True)
+    elif ctor in ('flat', 'flat-np', 'flat-kw', 'flat-tuple'):
         flat = np.concatenate([np.array(r, dtype=dt) for r in rows])
         L = [len(r) for r in rows]
         src = [flat]
-        a = ra.RaggedArray(flat, lengths=(np.array(L) if ctor == 'flat-np' else L))
+        if ctor == 'flat-kw':
+            a = ra.RaggedArray(lengths=np.array(L, dtype=np.int32), array=flat, copy=True, error_checking=False)
+        elif ctor == 'flat-tuple':
+            a = ra.RaggedArray(flat, tuple(L))
+        else:
+            a = ra.RaggedArray(flat, lengths=(np.array(L) if ctor == 'flat-np' else L))
     else:
         raise KeyError(ctor)
     if keep is not None:
@@ -325,7 +412,7 @@ def mkval(v, form):
     if form == 'listarr':
         return [np.array(r) for r in v]
     if form == 'listlist':
-        return [list(r) for r in v]
+        return [[(x.item() if isinstance(x, np.generic) else x) for x in r] for r in v]
     if form == 'arr2d':
         return np.array(v)
     raise KeyError(form)
@@ -345,46 +432,68 @@ def idx(sel):
         return sl(sel['slice'])
     if 'int' in sel:
         return sel['int']
+    if sel.get('np32'):
+        return np.array(sel['list'], dtype=np.int32)
     if sel.get('np'):
         return np.array(sel['list'], dtype=int)
     return list(sel['list'])
 
 
-def apply_real(a, op, box=None):
+def apply_real(a, op, box=None, aux=None):
     """returns (array bound to the name afterwards, result of a pure operator or None);
-    `box` (a list) receives a RaggedArray operand, so that the caller can check it afterwards"""
+    `box` (a list) receives a RaggedArray operand, so that the caller can check it afterwards;
+    `aux` = {'vals': [...value containers handed to the array...], 'views': {row: view held by the caller}}"""
     from enspara import ra
     k = op['k']
+    iw = op.get('iw')
+    vals = aux['vals'] if aux is not None else []
+
+    def keepv(x):
+        if isinstance(x, (np.ndarray, list)) or type(x).__name__ == 'RaggedArray':
+            vals.append(x)
+        return x
+
+    def parr(l):
+        return np.array(l, dtype=np.int32 if iw == 'np32' else int)
+
     if k == 'setElem':
-        a[op['i'], op['j']] = op['v']
+        a[_wrap_int(op['i'], iw), _wrap_int(op['j'], iw)] = op['v']
     elif k == 'viewWrite':
-        row = a[op['i']]
-        row[op['j']] = op['v']
+        n = len(a)
+        r = op['i'] % n if -n <= op['i'] < n else None
+        if op.get('held') and aux is not None and r in aux['views']:
+            row = aux['views'][r]               # a view the caller took earlier in the history
+        else:
+            row = a[_wrap_int(op['i'], iw)]
+        row[_wrap_int(op['j'], iw)] = op['v']
+        if aux is not None and r is not None:
+            aux['views'][r] = row
     elif k == 'setRow':
-        a[op['i']] = np.array(op['v']) if op.get('arr') else list(op['v'])
+        v = op['v']
+        a[_wrap_int(op['i'], iw)] = keepv(v if isinstance(v, np.ndarray) else (np.array(v) if op.get('arr') else list(v)))
     elif k == 'setRows':
-        a[idx(op['sel'])] = mkval(op['v'], op['form'])
+        a[idx(op['sel'])] = keepv(mkval(op['v'], op['form']))
     elif k == 'setIntSlice':
-        a[op['i'], sl(op['sl'])] = mkscatter(op)
+        a[_wrap_int(op['i'], iw), sl(op['sl'])] = keepv(mkscatter(op))
     elif k == 'set2d':
-        a[idx(op['r']), idx(op['c'])] = mkscatter(op)
+        a[idx(op['r']), idx(op['c'])] = keepv(mkscatter(op))
     elif k == 'setPaired':
         r, c = op['r'], op['c']
         form = op.get('pform', 'arr')
         if form == 'int-int':
-            key = (r[0], c[0])
+            key = (_wrap_int(r[0], iw), _wrap_int(c[0], iw))
         elif form == 'int-arr':
-            key = (r[0], np.array(c, dtype=int))
+            key = (_wrap_int(r[0], iw), parr(c))
         elif form == 'arr-int':
-            key = (np.array(r, dtype=int), c[0])
+            key = (parr(r), _wrap_int(c[0], iw))
         else:
-            key = (np.array(r, dtype=int), np.array(c, dtype=int))
-        a[key] = mkscatter(op)
+            key = (parr(r), parr(c))
+        a[key] = keepv(mkscatter(op))
     elif k == 'setMask':
         m = ra.RaggedArray([np.array(x, dtype=bool) for x in op['mask']])
-        a[m] = mkscatter(op)
+        a[m] = keepv(mkscatter(op))
     elif k == 'append':
-        a.append(mkval(op['v'], op['form']))
+        a.append(keepv(mkval(op['v'], op['form'])))
     elif k == 'appendFlat':
         a.append(list(op['v']))
     elif k in ('iop', 'iop2', 'binop', 'binop2'):
@@ -400,6 +509,8 @@ def apply_real(a, op, box=None):
                 res = IOPS[op['f']](a, o)          # `a ⊕= o` (no __iadd__: falls back to __add__)
             else:
                 res = OPS[op['f']](a, o)
+        if type(res).__name__ != 'RaggedArray':
+            raise NotRagged(type(res).__name__)
         if k in ('iop', 'iop2'):
             return res, None
         return a, res
@@ -417,12 +528,41 @@ def apply_real(a, op, box=None):
     return a, None
 
 
+class NotRagged(Exception):
+    """an operator returned something that is not a RaggedArray"""
+
+
+def poke(x):
+    """change a value container in place (after it was handed to the array)"""
+    if type(x).__name__ == 'RaggedArray':
+        poke(x._data)
+    elif isinstance(x, np.ndarray):
+        if x.dtype == object:
+            for y in x.reshape(-1):
+                poke(y)
+        elif x.size:
+            if x.dtype == bool:
+                np.logical_not(x, out=x)
+            else:
+                np.add(x, 7, out=x, casting='unsafe')
+    elif isinstance(x, list):
+        for y in x:
+            if isinstance(y, np.ndarray):
+                poke(y)
+
+
 OBS = ['lengths', 'starts', 'len', 'rows', '_array', 'flat', '_data', 'elems', 'iter', 'getslice',
        'size', 'shape', 'max', 'min', 'all', 'any', 'objdtype']
 
 
-def observe_real(a):
+def sample_rows(n, lengths=None):
+    """rows whose cells are read one by one on big arrays"""
+    return sorted(set(i for i in (0, 1, 2, 254, 255, 256, 257, n // 2, n - 2, n - 1) if 0 <= i < n))
+
+
+def observe_real(a, light=False):
     out = {}
+    R, R1 = (crows_l, crow_l) if light else (crows, crow)
 
     def grab(name, f):
         try:
@@ -434,13 +574,15 @@ def observe_real(a):
     grab('lengths', lambda: [int(x) for x in a.lengths])
     grab('starts', lambda: [int(x) for x in a.starts])
     grab('len', lambda: len(a))
-    grab('rows', lambda: crows([a[i] for i in range(n)]))
-    grab('_array', lambda: crows(list(a._array)))
-    grab('flat', lambda: crow(a.flatten()))
-    grab('_data', lambda: crow(a._data))
-    grab('elems', lambda: [[cs(unbox(a[i, j])) for j in range(int(a.lengths[i]))] for i in range(n)])
-    grab('iter', lambda: crows([r for r in a]))
-    grab('getslice', lambda: crows(list(a[:]._array)))
+    grab('rows', lambda: R([a[i] for i in range(n)]))
+    grab('_array', lambda: R(list(a._array)))
+    grab('flat', lambda: R1(a.flatten()))
+    grab('_data', lambda: R1(a._data))
+    rows_e = sample_rows(n) if light else range(n)
+    grab('elems', lambda: [[cs(unbox(a[i, j])) for j in range(min(int(a.lengths[i]), 300 if light else 10 ** 9))]
+                           for i in rows_e])
+    grab('iter', lambda: R([r for r in a]))
+    grab('getslice', lambda: R(list(a[:]._array)))
     grab('size', lambda: int(a.size))
     grab('shape', lambda: [None if x is None else int(x) for x in a.shape])
     grab('max', lambda: cs(a.max()))
@@ -451,15 +593,16 @@ def observe_real(a):
     return out
 
 
-def observe_rows(rows):
+def observe_rows(rows, light=False):
     """what every observer must show for this list of rows"""
     L = [len(r) for r in rows]
-    cr = crows(rows)
+    cr = crows_l(rows) if light else crows(rows)
+    el = [[cs(x) for x in cr[i][:300]] for i in sample_rows(len(rows))] if light else cr
     flat = [x for r in cr for x in r]
     fl = np.concatenate(rows) if rows else np.array([])
     return {
-        'lengths': L, 'starts': [sum(L[:i]) for i in range(len(L))], 'len': len(rows),
-        'rows': cr, '_array': cr, 'flat': flat, '_data': flat, 'elems': cr, 'iter': cr,
+        'lengths': L, 'starts': [int(x) for x in (np.cumsum([0] + L)[:-1])], 'len': len(rows),
+        'rows': cr, '_array': cr, 'flat': flat, '_data': flat, 'elems': el, 'iter': cr,
         'getslice': cr, 'size': sum(L),
         'shape': [len(rows), L[0] if len(set(L)) == 1 else None],
         'max': cs(fl.max()), 'min': cs(fl.min()),
@@ -493,6 +636,8 @@ def snapshot(a):
 
 def errclass(e):
     from enspara.exception import DataInvalid
+    if isinstance(e, NotRagged):
+        return 'not-ragged'
     if isinstance(e, IndexError):
         return 'index-error'
     if isinstance(e, DataInvalid):
@@ -546,8 +691,14 @@ def detect_cfg():
         a.append([6, 7])
         return crows(a) == crows([[1, 2], [3, 4, 5], [6, 7]])
 
+    def p_priority():
+        a = mk([[1, 2], [3, 4]])
+        b = mk([[1, 2], [3, 4, 5]])
+        return type(np.int64(2) * a).__name__ == 'RaggedArray' and crows(np.float32(1) + b) == crows([[2, 3], [4, 5, 6]]) \
+            and crows(np.array(3) < b) == crows([[False, False], [False, True, True]])
+
     return {'reads': ok(p_reads), 'rowviews': ok(p_rowviews), 'arrayviews': ok(p_arrayviews),
-            'append': ok(p_append)}
+            'append': ok(p_append), 'priority': ok(p_priority)}
 
 
 REPAIRS = {
@@ -555,19 +706,21 @@ REPAIRS = {
     'rowviews': 'row assignment on equal-length arrays works on one view per row - C06-setitem-row-views',
     'arrayviews': '_array is never a 2-d object copy (row views write through to _data) - C06-array-row-views',
     'append': 'append() of one flat row - C06-append-flat-row',
+    'priority': 'numpy scalars / 0-d arrays on the left of an operator defer to the reflected operators - C06-array-priority',
 }
-CFG_CURRENT = {'reads': True, 'rowviews': True, 'arrayviews': True, 'append': True}
+# /repo HEAD: all five repairs are committed
+CFG_CURRENT = {'reads': True, 'rowviews': True, 'arrayviews': True, 'append': True, 'priority': True}
 
 
 def enforce_variant(ctx):
-    """/repo HEAD carries all four repairs: a probe that does not see one is a violation; the
+    """/repo HEAD carries all five repairs: a probe that does not see one is a violation; the
     Lean model is always driven in its fully repaired variant"""
     seen = detect_cfg()
     ctx.note('variant_probes', seen)
     for k_, ok_ in seen.items():
         ctx.tag('probe:%s=%s' % (k_, ok_))
         ctx.case({'probe': k_}, nontrivial=True, tags=['probe'])
-        if not ok_:
+        if not ok_ and k_ in REPAIRS:
             ctx.violation('repair no longer in effect: %s' % REPAIRS[k_], {'probe': k_}, key=None)
     return dict(CFG_CURRENT)
 
@@ -598,6 +751,8 @@ def classify(op, spec):
     k = op['k']
     n = len(spec.rows)
     Ls = [len(r) for r in spec.rows]
+    if is_np_left(op):
+        return 'numpy-scalar-left-operand'
     if k == 'setMask' and not any(any(m) for m in op['mask']):
         return 'setmask-all-false'
     if k == 'iopAt':
@@ -663,12 +818,30 @@ def gen_lengths(rng, nmax=5, lmax=5):
     return [rint(rng, 1, lmax) for _ in range(n)]
 
 
-def gen_state(rng, dtype=None):
+CTORS = ['nested', 'lists', 'flat', 'flat-np', 'nested-nocheck', 'flat-kw', 'flat-tuple']
+
+
+def gen_state(rng, dtype=None, family='std'):
+    if family in ('dtype', 'mixed') and dtype is None:
+        dtype = ['int8', 'int16', 'int32', 'float32', 'int', 'bool'][rint(rng, 0, 5)] if family == 'dtype' \
+            else ['int', 'int32', 'int8', 'bool'][rint(rng, 0, 3)]
+    if family.startswith('scale') and dtype is None:
+        dtype = 'float' if family == 'scale-down' else ['int', 'float'][rint(rng, 0, 1)]
     dtype = dtype or ['int', 'float', 'int', 'float', 'bool'][rint(rng, 0, 4)]
+    kind = KIND[np.dtype(DT[dtype]).kind]
     L = gen_lengths(rng)
-    rows = [gen_rowvals(rng, dtype, l) for l in L]
-    ctor = ['nested', 'lists', 'flat', 'flat-np'][rint(rng, 0, 3)]
-    return {'rows': rows, 'dtype': dtype, 'ctor': ctor}
+    if family == 'empty-rows':
+        L = [l if rng.random() < 0.6 else 0 for l in L] + [rint(rng, 1, 3)]
+        rng.shuffle(L)
+        L = [int(x) for x in L]
+    rows = [gen_rowvals(rng, kind, l) for l in L]
+    if family == 'scale-up':
+        rows = [[x * 2 ** 20 if kind == 'int' else x * 2.0 ** 30 for x in r] for r in rows]
+    if family == 'scale-down':
+        rows = [[x * 2.0 ** -30 for x in r] for r in rows]
+    ctors = [c for c in CTORS if not (family == 'empty-rows' and c == 'lists')]
+    ctor = ctors[rint(rng, 0, len(ctors) - 1)]
+    return {'rows': rows, 'dtype': dtype, 'ctor': ctor, 'family': family}
 
 
 def gen_slice(rng, L, wild=0.2):
@@ -688,7 +861,7 @@ def gen_slice(rng, L, wild=0.2):
 
 
 def gen_index(rng, L, oob=0.06):
-    if rng.random() < oob:
+    if rng.random() < oob or L == 0:
         return [L, -L - 1, L + 1][rint(rng, 0, 2)]
     return rint(rng, -L, L - 1)
 
@@ -741,7 +914,92 @@ def gen_operand(rng, spec, kind, f, scalar_only=False):
     return [[pick() for _ in r] for r in spec.rows]
 
 
-def gen_op(rng, spec, kinds=None):
+def arith_room(spec):
+    """arithmetic operators whose result certainly stays inside the dtype (operands are < 10)"""
+    kind = spec.kind
+    fs = list(ARITH[kind])
+    if kind == 'bool':
+        return fs
+    fl = np.concatenate(spec.rows)
+    top = float(np.abs(fl.astype(np.float64)).max()) if fl.size else 0.0
+    dt = fl.dtype
+    lim = 1e4 if dt.itemsize == 8 else (float(np.iinfo(dt).max) / 2 if dt.kind in 'iu' else 2.0 ** 18)
+    if top * 2.5 + 1 > lim:
+        fs = [f for f in fs if f != 'mul']
+    if dt.itemsize < 8 and top + 10 > lim:
+        fs = [f for f in fs if f not in ('add', 'sub')]
+    return fs
+
+
+FAMILIES = {
+    # name: options of the decoration of generated operations
+    'std': {},
+    'dtype': {'wrap': 0.35},                      # narrow array dtypes, numpy scalars / typed arrays as values, int32 indices
+    'mixed': {'wrap': 0.25, 'mixed': 0.5},        # values of another kind than the array (upcast vs truncation)
+    'scale-up': {'scale': 2.0 ** 30},
+    'scale-down': {'scale': 2.0 ** -30},
+    'empty-rows': {},
+    'views': {'held': 0.8},                       # row views kept by the caller across in-place writes
+}
+
+
+def _map_vals(v, f):
+    if isinstance(v, list):
+        return [_map_vals(x, f) for x in v]
+    return f(v)
+
+
+def _all_leaves(v):
+    if isinstance(v, list):
+        for x in v:
+            yield from _all_leaves(x)
+    else:
+        yield v
+
+
+def gen_op(rng, spec, kinds=None, fam=None):
+    """an operation of the grammar, decorated according to the input family"""
+    fam = fam or {}
+    if fam.get('held') and kinds is None and rng.random() < 0.45:
+        kinds = ['viewWrite', 'setElem', 'set2d', 'setPaired', 'setMask', 'iopAt', 'binop']
+    op = _gen_op(rng, spec, kinds)
+    k = op['k']
+    kind = spec.kind
+    if k == 'viewWrite' and rng.random() < fam.get('held', 0.3):
+        op['held'] = True
+    # --- values of another kind / scale
+    if fam.get('mixed') and kind == 'int' and k != 'iopAt' and rng.random() < fam['mixed']:
+        bump = lambda x: (x + 0.5) if isinstance(x, int) and not isinstance(x, bool) else x
+        for key in ('v', 'c_', 'o'):
+            if key in op and not (key == 'c_' and op.get('f') in ('or', 'and', 'xor')):
+                op[key] = _map_vals(op[key], bump)
+    if fam.get('mixed') and kind == 'bool' and k in ('setElem', 'viewWrite', 'set2d', 'setMask', 'setRow') \
+            and rng.random() < fam['mixed']:
+        op['v'] = _map_vals(op['v'], lambda x: int(x) * 2 if isinstance(x, bool) else x)
+    sc = fam.get('scale')
+    if sc and kind in ('int', 'float') and 'v' in op:
+        f = (lambda x: int(x * 2 ** 20)) if kind == 'int' else (lambda x: x * sc)
+        op['v'] = _map_vals(op['v'], lambda x: f(x) if not isinstance(x, bool) else x)
+    # --- containers / dtypes of values and indices
+    w = fam.get('wrap', 0.04)
+    if rng.random() < w:
+        op['vw'] = ['np32', 'np64', '0d'][rint(rng, 0, 2)]
+    if rng.random() < w:
+        leaves = [x for key in ('v', 'o') if key in op for x in _all_leaves(op[key])]
+        if leaves and not any(isinstance(x, bool) for x in leaves):
+            if all(isinstance(x, int) for x in leaves):
+                op['vdt'] = ['int8', 'int16', 'int32'][rint(rng, 0, 2)] if max(abs(x) for x in leaves) < 100 else 'int32'
+            elif not sc:
+                op['vdt'] = 'float32'
+    if rng.random() < w:
+        op['iw'] = ['np32', 'np64'][rint(rng, 0, 1)]
+        for key in ('sel', 'r', 'c'):
+            if isinstance(op.get(key), dict) and 'list' in op[key]:
+                op[key]['np32'] = True
+    return op
+
+
+def _gen_op(rng, spec, kinds=None):
     kind = spec.kind
     n = len(spec.rows)
     Ls = [len(r) for r in spec.rows]
@@ -816,7 +1074,8 @@ def gen_op(rng, spec, kinds=None):
         else:
             c = {'list': [gen_index(rng, Lmin, oob=0.03) for _ in range(rint(rng, 1, 3))], 'np': bool(rint(rng, 0, 1))}
         if k == 'iopAt':
-            f = ARITH[kind][rint(rng, 0, 2)]
+            fs3 = [f for f in ARITH[kind][:3] if f in arith_room(spec)] or ['floordiv' if kind != 'bool' else 'or']
+            f = fs3[rint(rng, 0, len(fs3) - 1)]
             return {'k': k, 'r': r, 'c': c, 'f': f, 'c_': gen_operand(rng, spec, kind, f, scalar_only=True)}
         try:
             tg = spec.targets({'r': r, 'c': c})
@@ -846,7 +1105,7 @@ def gen_op(rng, spec, kinds=None):
         op = {'k': k, 'r': ri, 'c': ci, 'pform': pform}
         R = ri * t if len(ri) == 1 else ri
         C = ci * t if len(ci) == 1 else ci
-        cells = [(a_ % n, b_ % Ls[a_ % n]) for a_, b_ in zip(R, C) if -n <= a_ < n]
+        cells = [(a_ % n, b_ % max(Ls[a_ % n], 1)) for a_, b_ in zip(R, C) if -n <= a_ < n]
         if rng.random() < 0.4 or len(set(cells)) < len(cells) or t == 1:
             op.update(v=gen_scalar(rng, kind), vt='scalar')
         else:
@@ -871,7 +1130,7 @@ def gen_op(rng, spec, kinds=None):
         return {'k': k, 'mask': mask, 'v': gen_rowvals(rng, kind, cnt), 'vt': 'flat'}
     if k in ('append', 'appendFlat'):
         if n >= 7:
-            return gen_op(rng, spec, [x for x in kinds if x not in ('append', 'appendFlat')] or ['setElem'])
+            return _gen_op(rng, spec, [x for x in kinds if x not in ('append', 'appendFlat')] or ['setElem'])
         if k == 'appendFlat':
             return {'k': k, 'v': gen_rowvals(rng, kind, rint(rng, 1, 4))}
         m = rint(rng, 1, 2)
@@ -882,11 +1141,7 @@ def gen_op(rng, spec, kinds=None):
             v = [gen_rowvals(rng, kind, rint(rng, 1, 4)) for _ in range(m)]
         return {'k': 'append', 'v': v, 'form': ['ra', 'listarr', 'listlist'][rint(rng, 0, 2)]}
     if k in ('iop', 'binop'):
-        fl = np.concatenate(spec.rows)
-        big = np.abs(fl.astype(float)).max() > 1e4
-        fs = list(ARITH[kind])
-        if big:
-            fs = [f for f in fs if f != 'mul']
+        fs = arith_room(spec)
         if k == 'binop':
             fs = fs + CMP + (['invert'] if kind in ('bool', 'int') else [])
         f = fs[rint(rng, 0, len(fs) - 1)]
@@ -895,7 +1150,7 @@ def gen_op(rng, spec, kinds=None):
         o = gen_operand(rng, spec, kind, f)
         if isinstance(o, list):
             return {'k': k + '2', 'f': f, 'o': o}
-        refl = f in ('add', 'sub', 'mul') and rng.random() < 0.25
+        refl = f in ('add', 'sub', 'mul', 'eq', 'ne', 'lt', 'le', 'gt', 'ge') and rng.random() < 0.25
         return {'k': k, 'f': f, 'c_': o, 'refl': refl}
     if k == 'copyCtor':
         return {'k': k, 'viaFlat': bool(rint(rng, 0, 1)), 'np': bool(rint(rng, 0, 1))}
@@ -903,11 +1158,27 @@ def gen_op(rng, spec, kinds=None):
 
 
 # ================================================================== encoding for the driver
+def is_np_left(op):
+    """`c (+) a` with a numpy scalar / 0-d array c on the left"""
+    return op['k'] in ('iop', 'binop') and bool(op.get('refl')) and op.get('vw') is not None
+
+
 def lean_op(op, spec_before):
     """history op -> driver JSON (values as exact rationals)"""
     k = op['k']
     kind = spec_before.kind
+    sd = spec_before.rows[0].dtype
     j = {'k': k}
+    if k in ('setElem', 'viewWrite', 'setIntSlice', 'set2d', 'setPaired', 'setMask'):
+        # numpy casts what is written INTO existing cells to the array's dtype (float -> int truncates)
+        def cast(x):
+            return np.asarray(x).astype(sd)[()]
+        op = dict(op)
+        v = op['v']
+        if isinstance(v, list):
+            op['v'] = [[cast(x) for x in r] if isinstance(r, list) else cast(r) for r in v]
+        else:
+            op['v'] = cast(v)
     if k in ('setElem', 'viewWrite'):
         j.update(i=op['i'], j=op['j'], v=q(op['v']))
     elif k == 'setRow':
@@ -926,6 +1197,8 @@ def lean_op(op, spec_before):
         j.update(v=[[q(x) for x in r] for r in op['v']], form=op['form'])
     elif k == 'appendFlat':
         j.update(v=[q(x) for x in op['v']])
+    elif k in ('iop', 'binop') and is_np_left(op):
+        j.update(k='npLeft', f=op['f'], s=q(op['c_']), refl=True, rebind=(k == 'iop'))
     elif k in ('iop', 'binop', 'iopAt'):
         if op['f'] == 'invert':
             j.update(f='invert-bool' if kind == 'bool' else 'invert-int')
@@ -961,36 +1234,50 @@ def _val(op):
 
 # ================================================================== one history
 class Step:
-    __slots__ = ('op', 'spec_before', 'serr', 'rerr', 'o_real', 'o_spec', 'res_real', 'res_spec',
+    __slots__ = ('op', 'spec_before', 'spec_after', 'serr', 'rerr', 'o_real', 'o_spec', 'res_real', 'res_spec',
                  'dev', 'extra', 'lean', 'st_before', 'ctor_before')
 
 
 def exact(spec):
-    """all values finite and exactly representable for the Lean comparison"""
+    """all values finite, exactly representable and far from the dtype's limits (no wrap-around /
+    rounding can have happened): only then the exact-rational Lean model is compared"""
     for r in spec.rows:
-        if r.dtype.kind == 'f' and (not np.all(np.isfinite(r)) or np.abs(r).max() > 2.0 ** 40):
-            return False
+        if not r.size:
+            continue
+        if r.dtype.kind == 'f':
+            if not np.all(np.isfinite(r)):
+                return False
+            lim = 2.0 ** 50 if r.dtype.itemsize == 8 else 2.0 ** 20
+            if np.abs(r).max() > lim:
+                return False
+        elif r.dtype.kind in 'iu':
+            if np.abs(r.astype(np.float64)).max() > np.iinfo(r.dtype).max / 2:
+                return False
     return True
 
 
-def run_history(st, ops_or_gen, rng=None, nsteps=None, kinds=None):
+REINIT = ('setRow', 'setRows', 'setIntSlice', 'append', 'appendFlat', 'iop', 'iop2', 'copyCtor')
+
+
+def run_history(st, ops_or_gen, rng=None, nsteps=None, kinds=None, fam=None, light=False):
     """executes a history on the real code and on the oracle; returns (init record, [Step])"""
+    light = light or bool(st.get('light'))
     spec = Spec(st['rows'], dtype=DT[st['dtype']])
     keep = []
     with warnings.catch_warnings():
         warnings.simplefilter('ignore')
         a = build_real(st['rows'], st['dtype'], st['ctor'], keep)
-    src_snap = [np.array(x, dtype=object if isinstance(x, list) else None).tobytes() if not isinstance(x, list)
-                else repr(x) for x in keep]
-    init = {'o_real': observe_real(a), 'o_spec': observe_rows(spec.rows), 'alias': None}
+    src_snap = [x.tobytes() if not isinstance(x, list) else repr(x) for x in keep]
+    init = {'o_real': observe_real(a, light), 'o_spec': observe_rows(spec.rows, light), 'alias': None}
     steps = []
     ctor = st['ctor']
+    views = {}          # row views the caller holds on to (taken by earlier viewWrite steps)
     t = 0
     while True:
         if nsteps is not None:
             if t >= nsteps:
                 break
-            op = gen_op(rng, spec, kinds)
+            op = gen_op(rng, spec, kinds, fam)
         else:
             if t >= len(ops_or_gen):
                 break
@@ -998,42 +1285,61 @@ def run_history(st, ops_or_gen, rng=None, nsteps=None, kinds=None):
         t += 1
         S = Step()
         S.op, S.spec_before, S.extra, S.ctor_before = op, spec, [], ctor
+        mop = mat(op)
         s2 = spec.copy()
         S.res_spec = None
         try:
             with np.errstate(all='ignore'):
-                S.res_spec = s2.apply(op)
+                S.res_spec = s2.apply(mop)
             S.serr = None
         except SpecError as e:
             S.serr, s2 = str(e) + '-error', spec
-        except (ValueError, IndexError, TypeError) as e:
+        except (ValueError, IndexError, TypeError, OverflowError) as e:
             S.serr, s2 = 'value-error', spec
         before = snapshot(a)
-        operand = None
         S.res_real = None
+        aux = {'vals': [], 'views': views}
         try:
             with warnings.catch_warnings():
                 warnings.simplefilter('ignore')
                 with np.errstate(all='ignore'):
                     box = []
-                    a2, res = apply_real(a, op, box)
+                    a2, res = apply_real(a, mat(op), box, aux)
             S.rerr = None
         except Exception as e:  # noqa
             S.rerr, a2, res = errclass(e), a, None
-        S.o_real = observe_real(a2)
-        S.o_spec = observe_rows(s2.rows)
+        S.o_real = observe_real(a2, light)
+        S.o_spec = observe_rows(s2.rows, light)
+        # ---- values handed to the array are copied: changing them afterwards must not reach the array
+        if S.rerr is None and aux['vals']:
+            for x in aux['vals']:
+                poke(x)
+            C1, CR = (crow_l, crows_l) if light else (crow, crows)
+            if C1(a2._data) != S.o_real['_data'] or CR(list(a2._array)) != S.o_real['_array']:
+                S.extra.append('changing the assigned/appended value object afterwards changed the array')
+        # ---- row views held across in-place writes keep showing (and writing) the row
+        if S.rerr is None and op['k'] in REINIT:
+            views.clear()       # documented: a re-built array has new storage
+        elif S.rerr is None:
+            for r_, view_ in list(views.items()):
+                if r_ < len(s2.rows) and (crow_l if light else crow)(view_) != S.o_spec['rows'][r_]:
+                    S.extra.append('a row view taken earlier (row = a[%d]) no longer shows the row' % r_)
+                    break
         # ---- purity of operators / rejected operations
         if op['k'] in ('binop', 'binop2') and S.rerr is None:
-            S.res_real = observe_real(res)
+            S.res_real = observe_real(res, light)
             if res is a2:
                 S.extra.append('operator returned its operand')
             if snapshot(a2) != before:
                 S.extra.append('operator changed its operand')
             if np.shares_memory(res._data, a2._data) and res._data.dtype != object:
                 S.extra.append('operator result shares memory with its operand')
-            try:                       # writing to the result must not reach the operand
+            try:                       # writing to the result (also through a slice of it) must not reach the operand
                 res[0, 0] = res[0, 0]
+                part = res[0:1]
+                part[0, 0] = part[0, 0]
                 res._data[...] = res._data[::-1].copy()
+                poke(part)
             except Exception:  # noqa
                 pass
             if snapshot(a2) != before:
@@ -1058,15 +1364,17 @@ def run_history(st, ops_or_gen, rng=None, nsteps=None, kinds=None):
             src_snap = now
         S.dev = bool((S.serr is None) != (S.rerr is None) or diff(S.o_real, S.o_spec) or S.extra
                      or (S.res_real is not None and S.res_spec is not None
-                         and diff(S.res_real, observe_rows(S.res_spec),
+                         and diff(S.res_real, observe_rows(S.res_spec, light),
                                   [k for k in OBS if k not in ('objdtype',)])))
+        S.spec_after = s2
         steps.append(S)
         spec = s2
         if S.dev:
             # continue the history from the oracle's state
             ctor = 'nested'
             keep = []
-            a = build_real([r.tolist() for r in spec.rows], spec.kind, 'nested', keep)
+            views.clear()
+            a = build_real([r.tolist() for r in spec.rows], spec.dtname, 'nested', keep)
             src_snap = [x.tobytes() for x in keep]
         else:
             a = a2
@@ -1087,7 +1395,8 @@ def history_request(cfg, st, steps):
             rows_after = S.o_spec['rows']
             ops.append({'k': 'resync', 'rows': [[q(x) for x in r] for r in rows_after]})
     rows = [[q(x) for x in np.array(r, dtype=DT[st['dtype']])] for r in st['rows']]
-    return {'op': 'C06.run', 'cfg': cfg, 'init': {'rows': rows, 'ctor': st['ctor']}, 'ops': ops}
+    ctor = {'nested-nocheck': 'nested', 'flat-kw': 'flat-np', 'flat-tuple': 'flat'}.get(st['ctor'], st['ctor'])
+    return {'op': 'C06.run', 'cfg': cfg, 'init': {'rows': rows, 'ctor': ctor}, 'ops': ops}
 
 
 MODEL_KEYS = ['lengths', 'starts', 'len', 'rows', '_array', 'flat', '_data', 'elems', 'iter', 'size',
@@ -1102,13 +1411,26 @@ def judge(ctx, st, steps, resp, cfg, tags=()):
         op = S.op
         M = msteps[t] if t < len(msteps) and not model_lost else None
         replay = {'init': st, 'ops': [s.op for s in steps[:t + 1]]}
-        single = {'init': {'rows': jsonable(crows(S.spec_before.rows)), 'dtype': S.spec_before.kind,
-                           'ctor': S.ctor_before if S.ctor_before in ('nested', 'lists', 'flat', 'flat-np') else 'nested'},
-                  'ops': [op]}
+        big = bool(st.get('light'))
+        if big:
+            single = replay
+            rows_rec = ['big', len(S.spec_before.rows), int(sum(len(r) for r in S.spec_before.rows)), t]
+        else:
+            rows_rec = jsonable(crows(S.spec_before.rows))
+            single = {'init': {'rows': rows_rec, 'dtype': S.spec_before.dtname,
+                               'ctor': S.ctor_before if S.ctor_before in CTORS else 'nested'},
+                      'ops': [op]}
         nontrivial = S.serr is None
-        ctx.case({'rows': jsonable(crows(S.spec_before.rows)), 'op': jsonable(op)}, nontrivial=nontrivial,
+        ctx.case({'rows': rows_rec, 'op': jsonable(op) if not big else op['k']}, nontrivial=nontrivial,
                  tags=['op=' + op['k'], 'rect' if is_rect(S.spec_before) else 'ragged',
-                       'dtype=' + S.spec_before.kind, 'oracle-rejects' if S.serr else 'oracle-accepts'] + list(tags))
+                       'dtype=' + S.spec_before.dtname, 'oracle-rejects' if S.serr else 'oracle-accepts']
+                 + [t_ for t_ in ('value-wrapper=%s' % op.get('vw') if op.get('vw') else None,
+                                  'value-dtype=%s' % op.get('vdt') if op.get('vdt') else None,
+                                  'index-wrapper=%s' % op.get('iw') if op.get('iw') else None,
+                                  'held-view' if op.get('held') else None,
+                                  'ctor=' + str(st.get('ctor')) if t == 0 else None,
+                                  'value-kind-differs' if _kind_differs(op, S.spec_before) else None) if t_]
+                 + list(tags))
         # ---- model vs real
         model_agrees = None
         if M is not None:
@@ -1155,6 +1477,17 @@ def judge(ctx, st, steps, resp, cfg, tags=()):
                                   real_err=S.rerr))
 
 
+def _kind_differs(op, spec):
+    k_ = spec.kind
+    for key in ('v', 'c_', 'o'):
+        if key in op:
+            for x in _all_leaves(op[key]):
+                xk = 'bool' if isinstance(x, bool) else 'int' if isinstance(x, int) else 'float'
+                if xk != k_:
+                    return True
+    return False
+
+
 def describe(S):
     op = S.op
     if S.extra:
@@ -1192,7 +1525,11 @@ def process(ctx, cfg, batch, tags=()):
         if d:
             ctx.violation('constructor: observers %s disagree with the rows given' % d[:6],
                           {'init': st, 'ops': []}, key=None)
-        if not all(exact(S.spec_before) for S in steps):
+        if st.get('nolean'):
+            ctx.tag('model-skipped-big', len(steps))
+            where.append(None)
+            continue
+        if not all(exact(S.spec_before) and exact(S.spec_after) for S in steps):
             ctx.skip('history left the exactly representable range (no Lean comparison)')
             where.append(None)
             continue
@@ -1355,7 +1692,167 @@ def aliasing_probe(ctx, case):
             ctx.violation('writing to a RaggedArray built by copy (%s) changed the source' % form, case)
 
 
+# ---- object reuse: results of reads / operators written to, one value object assigned twice,
+# ---- appended source mutated afterwards
+REUSE_FORMS = ['row-slice', 'row-list', 'col-slice', 'op-result', 'op-result-slice', 'mask-read',
+               'same-value-twice', 'same-ra-two-arrays', 'append-then-mutate-source']
+
+
+def reuse_probes(ctx, rng, count):
+    for _ in range(count):
+        st = gen_state(rng, dtype=['int', 'float', 'int32', 'bool'][rint(rng, 0, 3)])
+        rows = st['rows']
+        if len(rows) < 2:
+            rows = rows + [list(rows[0])]
+        reuse_probe(ctx, {'reuse': REUSE_FORMS[rint(rng, 0, len(REUSE_FORMS) - 1)], 'rows': rows,
+                          'dtype': st['dtype']})
+
+
+def reuse_probe(ctx, case):
+    from enspara import ra
+    form, rows, dt = case['reuse'], case['rows'], DT[case['dtype']]
+    is_bool = case['dtype'] == 'bool'
+    one = True if is_bool else 1
+
+    def mk():
+        return ra.RaggedArray([np.array(r, dtype=dt) for r in rows])
+
+    def same(x, want):
+        return crows([x[i] for i in range(len(x))]) == want and crow(x._data) == [y for r in want for y in r]
+
+    want = crows([np.array(r, dtype=dt) for r in rows])
+    ctx.case(case, nontrivial=True, tags=['reuse=' + form])
+    with warnings.catch_warnings():
+        warnings.simplefilter('ignore')
+        a = mk()
+        try:
+            if form in ('row-slice', 'row-list', 'col-slice', 'op-result', 'op-result-slice', 'mask-read'):
+                c = {'row-slice': lambda: a[0:2], 'row-list': lambda: a[[0, -1]], 'col-slice': lambda: a[:, 0:1],
+                     'op-result': lambda: (a == a) if is_bool else (a + 0),
+                     'op-result-slice': lambda: ((a == a) if is_bool else (a * 1))[0:1],
+                     'mask-read': lambda: a[a == a]}[form]()
+                c0 = crows([c[i] for i in range(len(c))]) if form != 'mask-read' else crow(c)
+                # write to the derived object through every writer family
+                if form == 'mask-read':
+                    poke(c)
+                else:
+                    c[0, 0] = not c[0, 0] if is_bool else c[0, 0] + 5
+                    c[0] = list(c[0])
+                    c[:, 0] = one
+                    r0 = c[0]
+                    r0[...] = one
+                    poke(c)
+                if not same(a, want):
+                    ctx.violation('writing to the result of a read/operator (%s) changed the array it came from' % form, case)
+                    return
+                # and the other way round
+                if form != 'mask-read':
+                    c = {'row-slice': lambda: a[0:2], 'row-list': lambda: a[[0, -1]], 'col-slice': lambda: a[:, 0:1],
+                         'op-result': lambda: (a == a) if is_bool else (a + 0),
+                         'op-result-slice': lambda: ((a == a) if is_bool else (a * 1))[0:1]}[form]()
+                    c0 = crows([c[i] for i in range(len(c))])
+                    a[0, 0] = not a[0, 0] if is_bool else a[0, 0] + 5
+                    a[:, 0] = one
+                    poke(a)
+                    if crows([c[i] for i in range(len(c))]) != c0:
+                        ctx.violation('writing to an array changed an earlier result (%s) of it' % form, case)
+            elif form == 'same-value-twice':
+                L = len(rows[0])
+                rows2 = [rows[0], list(rows[0])] + rows[2:]
+                a = ra.RaggedArray([np.array(r, dtype=dt) for r in rows2])
+                v = np.array([one] * L, dtype=dt)
+                v0 = v.copy()
+                a[0] = v
+                a[1] = v
+                a[0, 0] = (not one) if is_bool else 9
+                if crow(a[1]) != crow(v0) or crow(v) != crow(v0):
+                    ctx.violation('one value object assigned to two rows: writing one row changed the other row or the value', case)
+                    return
+                snap = crows([a[i] for i in range(len(a))])
+                poke(v)
+                if crows([a[i] for i in range(len(a))]) != snap:
+                    ctx.violation('one value object assigned to two rows: changing the value changed the array', case)
+            elif form == 'same-ra-two-arrays':
+                b = mk()
+                r = ra.RaggedArray([np.array(rows[0], dtype=dt), np.array(rows[1], dtype=dt)])
+                r0 = snapshot(r)
+                a[0:2] = r
+                b[0:2] = r
+                a[0, 0] = (not a[0, 0]) if is_bool else a[0, 0] + 5
+                poke(a)
+                if snapshot(r) != r0 or not same(b, want):
+                    ctx.violation('one RaggedArray assigned into two arrays: writing one changed the value or the other', case)
+                    return
+                poke(r)
+                if not same(b, want):
+                    ctx.violation('one RaggedArray assigned into two arrays: changing the value changed an array', case)
+            elif form == 'append-then-mutate-source':
+                r = ra.RaggedArray([np.array(rows[0], dtype=dt)])
+                src = [np.array(rows[1], dtype=dt)]
+                a.append(r)
+                a.append(src)
+                want2 = want + [want[0], want[1]]
+                poke(r)
+                poke(src)
+                r[0, 0] = one
+                if not same(a, want2):
+                    ctx.violation('changing an appended RaggedArray / list of arrays afterwards changed the array', case)
+                    return
+                r1, s1 = snapshot(r), [x.tobytes() for x in src]
+                a[-1, 0] = one
+                a[-2] = list(a[-2])
+                poke(a)
+                if snapshot(r) != r1 or [x.tobytes() for x in src] != s1:
+                    ctx.violation('writing to the array changed a RaggedArray / list of arrays appended earlier', case)
+        except Exception as e:  # noqa
+            ctx.violation('object-reuse probe %s raised %s' % (form, type(e).__name__), case)
+
+
+# ---- size boundaries: >= 256 rows, rows longer than 255 cells, more than 65535 cells / rows
+def big_states(rng, thorough):
+    def vals(n):
+        return [int(x) for x in rng.integers(-9, 10, size=n)]
+    out = [[vals(rint(rng, 1, 3)) for _ in range(300)],                       # 300 short rows
+           [vals(2), vals(300), vals(1), vals(257)],                            # rows longer than 255
+           [vals(260) for _ in range(258)]]                                     # equal-length, 67080 cells
+    if thorough:
+        out += [[vals(1) for _ in range(20001)],                                # beyond the error-checking limit
+                [vals(rint(rng, 1, 2)) for _ in range(65600)],                  # more than 65535 rows
+                [vals(70000), vals(3)]]                                         # one row longer than 65535
+    return out
+
+
+def big_histories(ctx, cfg, rng):
+    kinds = ['viewWrite', 'setElem', 'setRow', 'setRows', 'setIntSlice', 'set2d', 'setPaired', 'setMask',
+             'append', 'iop', 'iopAt', 'binop', 'copyCtor']
+    batch = []
+    for rows in big_states(rng, ctx.thorough):
+        ctor = ['nested', 'flat-np', 'flat', 'nested-nocheck'][rint(rng, 0, 3)]
+        st = {'rows': rows, 'dtype': 'int', 'ctor': ctor, 'family': 'big', 'light': True, 'nolean': True}
+        # two forced writes beyond the 255/256 boundaries, then random operations
+        n, Lm = len(rows), max(len(r) for r in rows)
+        forced = []
+        if n > 257:
+            forced += [{'k': 'setElem', 'i': 256, 'j': 0, 'v': 77}, {'k': 'setRow', 'i': 257, 'v': [5] * len(rows[257])},
+                       {'k': 'set2d', 'r': {'slice': [250, 260, None]}, 'c': {'int': 0}, 'v': 3, 'vt': 'scalar'}]
+        if Lm > 257:
+            i = max(range(n), key=lambda t: len(rows[t]))
+            forced += [{'k': 'setElem', 'i': i, 'j': 256, 'v': 78}, {'k': 'viewWrite', 'i': i, 'j': 257, 'v': 79},
+                       {'k': 'setIntSlice', 'i': i, 'sl': [254, 258, None], 'v': [1, 2, 3, 4], 'vt': 'flat'}]
+        init, steps = run_history(st, forced)
+        batch.append((st, init, steps))
+        init, steps = run_history(st, None, rng=rng, nsteps=ctx.n(4, 8), kinds=kinds)
+        batch.append((st, init, steps))
+    process(ctx, cfg, batch, tags=['big'])
+
+
 # ================================================================== entry points
+QUICK_FAMILIES = [('std', 350), ('dtype', 90), ('mixed', 90), ('views', 50), ('empty-rows', 40),
+                  ('scale-up', 20), ('scale-down', 20)]
+THOROUGH_FAMILIES = [('std', 5000), ('dtype', 1200), ('mixed', 1200), ('views', 600), ('empty-rows', 500),
+                     ('scale-up', 250), ('scale-down', 250)]
+
+
 def run(ctx):
     cfg = enforce_variant(ctx)
     rng = ctx.rng
@@ -1369,19 +1866,22 @@ def run(ctx):
                 process(ctx, cfg, batch, tags=['scope'])
                 batch = []
     process(ctx, cfg, batch, tags=['scope'])
-    # 2. random histories
-    nh = ctx.n(700, 8000)
-    batch = []
-    for _ in range(nh):
-        st = gen_state(rng)
-        init, steps = run_history(st, None, rng=rng, nsteps=rint(rng, 1, 12))
-        batch.append((st, init, steps))
-        if len(batch) >= 1000:
-            process(ctx, cfg, batch, tags=['history'])
-            batch = []
-    process(ctx, cfg, batch, tags=['history'])
-    # 3. aliasing
+    # 2. random histories, by input family
+    for family, count in (THOROUGH_FAMILIES if ctx.thorough else QUICK_FAMILIES):
+        batch = []
+        for _ in range(count):
+            st = gen_state(rng, family=family)
+            init, steps = run_history(st, None, rng=rng, nsteps=rint(rng, 1, 12), fam=FAMILIES[family])
+            batch.append((st, init, steps))
+            if len(batch) >= 1000:
+                process(ctx, cfg, batch, tags=['history', 'family=' + family])
+                batch = []
+        process(ctx, cfg, batch, tags=['history', 'family=' + family])
+    # 3. size boundaries (oracle only)
+    big_histories(ctx, cfg, rng)
+    # 4. aliasing / object reuse
     aliasing_probes(ctx, rng, ctx.n(150, 2000))
+    reuse_probes(ctx, rng, ctx.n(120, 1500))
 
 
 def replay(ctx, case):
@@ -1391,6 +1891,9 @@ def replay(ctx, case):
         return
     if 'alias' in case:
         aliasing_probe(ctx, case)
+        return
+    if 'reuse' in case:
+        reuse_probe(ctx, case)
         return
     st = case['init']
     init, steps = run_history(st, case['ops'])
